@@ -69,9 +69,11 @@ func ExtensionForKey(key cbc.Key) *cbc.Definition {
 // have been registered globally.
 func (em Extensions) Validate() error {
 	err := make(validation.Errors)
-	// Validate key format
-	for k := range em {
+	// Validate key and value format
+	for k, ev := range em {
 		if e := k.Validate(); e != nil {
+			err[k.String()] = e
+		} else if e := ev.Validate(); e != nil {
 			err[k.String()] = e
 		}
 	}
